@@ -13,6 +13,7 @@ allocation to fail, pump, disarm, pump: either the complete uninjected outcome
 or nothing but a NoMemory error to the caller with the state dump unchanged;
 then the retried request must give the complete outcome."""
 import os
+import time
 import re
 from collections import Counter
 
@@ -395,6 +396,85 @@ def task_bus(t):
             'n': n, 'indices': n, 'nfail': kinds.get('nomem', 0), 'kinds': dict(kinds), 'part': 'bus'}
 
 
+# ---- activation under allocation failure ---------------------------------------------
+
+def task_activation(t):
+    """t = (kind, prior): kind 'call' (auto-starting method call) or 'start' (StartServiceByName); prior: 0 = nothing pending,
+    1 = an activation of the same name is already pending (the request joins it)."""
+    from . import c19
+    kind, prior = t
+    out = []
+    n = 0
+    kinds = Counter()
+    case0 = {'activation': [kind, prior]}
+
+    def one(k):
+        s = c19.Session({'small': True})
+        try:
+            if prior:
+                s.apply(['call', 'Y', 0])
+            started0 = s.start_log().get(c19.S1, 0)
+            pre = re.sub(r'serial=\d+', 'serial=*', s.impl_key())
+            c = s.slots['X']
+            ser = s.bus.next_serial(c)
+            if kind == 'call':
+                m = R.method_call(ser, c19.S1, '/svc', 'svc.i', 'Work', [R.S('oomtok')])
+            else:
+                m = R.bus_call(ser, 'StartServiceByName', [R.S(c19.S1), R.U(0)])
+            s.bus.send(c, R.encode_message(m))
+            if k is not None:
+                s.bus.h.cmd('FAILALLOC %d' % k)
+            s.bus.pump()
+            fired = False
+            if k is not None:
+                fired = int(s.bus.h.cmd('FAILLEFT').split()[1]) > 1000000000
+                s.bus.h.cmd('FAILALLOC off')
+            s.settle()
+            time.sleep(0.03)
+            s.settle()
+            errs = [o for o in s.take('X') if o.kind == R.MT_ERROR and o.rserial == ser]
+            post = re.sub(r'serial=\d+', 'serial=*', s.impl_key())
+            started = s.start_log().get(c19.S1, 0) - started0
+            entries = s.impl_pending().get(c19.S1, 0)
+            return {'fired': fired, 'errs': [e.errname for e in errs], 'pre': pre, 'post': post, 'started': started, 'entries': entries, 'eof': s.eof.get('X')}
+        finally:
+            s.close()
+    try:
+        base = one(None)
+        k = 0
+        while k < 600:
+            r = one(k)
+            if not r['fired']:
+                break
+            n += 1
+            case = dict(case0, k=k)
+            same = (r['errs'], r['started'], r['entries'], r['post']) == (base['errs'], base['started'], base['entries'], base['post'])
+            if same:
+                kinds['absorbed'] += 1
+            elif r['errs'] == [b'org.freedesktop.DBus.Error.NoMemory'] and not r['eof']:
+                kinds['nomem'] += 1
+                # the request reported failure: no process may have been started for it and the bus state must be as before
+                if r['started'] != 0 and not prior:
+                    out.append(Violation('oom-state-changed', 'activation:process-started', 'auto-start %s (prior pending %d), allocation %d failing: the caller got NoMemory but the service process was started' % (kind, prior, k), case))
+                elif r['post'] != r['pre']:
+                    d0, d1 = diff_dump(r['pre'], r['post'])
+                    out.append(Violation('oom-state-changed', 'activation:' + '+'.join(sorted({x.split(' ')[0] for x in d0 + d1})),
+                                         'auto-start %s (prior pending %d), allocation %d failing: the caller got NoMemory but the state changed\n before: %s\n after : %s' % (kind, prior, k, d0, d1), case))
+            else:
+                kinds['partial'] += 1
+                out.append(Violation('oom-partial-outcome', 'activation', 'auto-start %s (prior pending %d), allocation %d failing: errors %r, processes started %d, pending entries %d, sender disconnected %s; uninjected: errors %r, started %d, entries %d' %
+                                     (kind, prior, k, r['errs'], r['started'], r['entries'], r['eof'], base['errs'], base['started'], base['entries']), case))
+            k += 1
+    except HarnessDied as e:
+        out.append(crash_violation(e, case0))
+        worker_bus().h.close()
+    byfp = {}
+    for v in out:
+        byfp.setdefault(v.fingerprint, []).append(v)
+    return {'viol': [v.to_json() for vs in byfp.values() for v in vs[:2]], 'counts': {k2: len(v) for k2, v in byfp.items()},
+            'n': n, 'indices': n, 'nfail': kinds.get('nomem', 0), 'kinds': dict(kinds), 'part': 'bus'}
+
+
 def diff_dump(a, b):
     sa, sb = set(a.split('|')), set(b.split('|'))
     return (sorted(sa - sb), sorted(sb - sa))
@@ -425,6 +505,9 @@ def run(ctx):
             reqs = [r for r in reqs if r[0] != 'req' or r[2] in (0, 3, 4)]
         for rq in reqs:
             tasks.append((task_bus, (p, rq)))
+    for kind_ in ('call', 'start'):
+        for prior_ in (0, 1):
+            tasks.append((task_activation, (kind_, prior_)))
     pool = Pool()
     lib_idx = bus_idx = 0
     nops = 0
@@ -466,6 +549,9 @@ def run(ctx):
 
 
 def replay(case):
+    if 'activation' in case:
+        r = task_activation(tuple(case['activation']))
+        return [Violation.from_json(v) for v in r['viol']]
     if 'lib' in case:
         r = task_lib([(case['lib'], case['kind'])])
         return [Violation.from_json(v) for v in r['viol']]
